@@ -67,12 +67,14 @@ type ContractFile struct {
 	PkgPath string
 	Pkg     *types.Package
 	Imports map[string]string // alias -> package path
+	Axioms  bool
 }
 
 type Contracts struct {
 	P       *Program
 	byFn    map[*ssa.Function]*Contract
 	iface   map[string]*Contract // "pkgpath.Iface.Method"
+	extern  map[string]*Contract // call name -> assumed contract (axiom files)
 	specs   map[string]*SpecFunc
 	preds   map[string]*Pred
 	all     []*Contract
@@ -102,7 +104,7 @@ var clauseRe = regexp.MustCompile(`^(requires|ensures|modifies|let|nopanic|trust
 var labelRe = regexp.MustCompile(`^\[([^\]]+)\]\s*(.*)$`)
 
 func loadContracts(p *Program, overlay map[string][]byte) *Contracts {
-	cx := &Contracts{P: p, byFn: map[*ssa.Function]*Contract{}, iface: map[string]*Contract{}, specs: map[string]*SpecFunc{}, preds: map[string]*Pred{}}
+	cx := &Contracts{P: p, byFn: map[*ssa.Function]*Contract{}, iface: map[string]*Contract{}, extern: map[string]*Contract{}, specs: map[string]*SpecFunc{}, preds: map[string]*Pred{}}
 	var pkgs []string
 	for path := range p.SSA {
 		pkgs = append(pkgs, path)
@@ -125,6 +127,31 @@ func loadContracts(p *Program, overlay map[string][]byte) *Contracts {
 		cf := &ContractFile{Path: file, PkgPath: path, Pkg: sp.Pkg, Imports: map[string]string{}}
 		cx.files = append(cx.files, cf)
 		cx.parseFile(cf, string(data))
+	}
+	// assumed contracts on dependencies (trusted base)
+	axs, _ := filepath.Glob(filepath.Join(verifDir(), "axioms", "*.axm"))
+	sort.Strings(axs)
+	for _, f := range axs {
+		data, err := os.ReadFile(f)
+		if err != nil {
+			continue
+		}
+		text := string(data)
+		// scope package: first "// verif:package <path>" line; skipped if that package is not loaded
+		pkgPath := ""
+		for _, ln := range strings.Split(text, "\n") {
+			if strings.HasPrefix(strings.TrimSpace(ln), "// verif:package ") {
+				pkgPath = strings.TrimSpace(strings.TrimPrefix(strings.TrimSpace(ln), "// verif:package "))
+				break
+			}
+		}
+		sp := p.SSA[pkgPath]
+		if sp == nil {
+			continue
+		}
+		cf := &ContractFile{Path: f, PkgPath: pkgPath, Pkg: sp.Pkg, Imports: map[string]string{}, Axioms: true}
+		cx.files = append(cx.files, cf)
+		cx.parseFile(cf, text)
 	}
 	return cx
 }
@@ -163,6 +190,24 @@ func (cx *Contracts) parseFile(cf *ContractFile, text string) {
 			key := strings.TrimSpace(strings.TrimPrefix(t, "// verif:func "))
 			cur = &Contract{Key: key, PkgPath: cf.PkgPath, Lets: map[string]ast.Expr{}, Invariants: map[int][]Clause{}, Unroll: map[int]int{}, File: cf, Line: i + 1}
 			cx.bindFunc(cur)
+			cx.all = append(cx.all, cur)
+		case strings.HasPrefix(t, "// verif:extern "):
+			flush()
+			spec := strings.TrimSpace(strings.TrimPrefix(t, "// verif:extern "))
+			cur = &Contract{Key: "EXTERN " + spec, PkgPath: cf.PkgPath, Lets: map[string]ast.Expr{}, Invariants: map[int][]Clause{}, Unroll: map[int]int{}, File: cf, Line: i + 1, Trusted: true}
+			// name(params): params is the last parenthesised group
+			j := strings.LastIndex(spec, "(")
+			name := spec
+			if j > 0 && strings.HasSuffix(spec, ")") {
+				name = strings.TrimSpace(spec[:j])
+				for _, p := range strings.Split(spec[j+1:len(spec)-1], ",") {
+					if p = strings.TrimSpace(p); p != "" {
+						cur.Params = append(cur.Params, p)
+					}
+				}
+			}
+			cur.Key = "EXTERN " + name
+			cx.extern[name] = cur
 			cx.all = append(cx.all, cur)
 		case strings.HasPrefix(t, "// verif:iface "):
 			flush()
